@@ -115,7 +115,23 @@ def _ex_mag(x, th): return float(_ex_fx(x, th)) * (1.0 + abs(x)) + abs(th[0])
 def _ex_roots(th): return [math.log(th[0])]
 
 
+# quintic, flat at theta0, offset by a tiny theta1: the stationary point theta0 has |f| = |theta1| below a residual
+# tolerance of 1e-8 while the root theta0 + theta1**(1/5) is far away (added after a seeded change that tested
+# convergence with a stale residual went undetected)
+def _fo_f(x, th): return (x - th[0]) ** 5 - th[1]
+def _fo_fx(x, th): return 5.0 * (x - th[0]) ** 4
+def _fo_fth(x, th): return np.array([-5.0 * (x - th[0]) ** 4, -1.0])
+def _fo_mag(x, th): return abs(x - th[0]) ** 5 + abs(th[1]) + 5.0 * (x - th[0]) ** 4 * (abs(x) + abs(th[0]))
+def _fo_roots(th): return [float(th[0] + np.sign(th[1]) * abs(th[1]) ** 0.2)]
+
+
+def stationary(fam, th):
+    """a point with f' = 0 that is not a root, or None"""
+    return float(th[0]) if fam == "flatoff" else None
+
+
 FAMILIES = {
+    "flatoff": dict(f=_fo_f, fx=_fo_fx, fth=_fo_fth, mag=_fo_mag, roots=_fo_roots, ntheta=2),
     "linear":  dict(f=_lin_f, fx=_lin_fx, fth=_lin_fth, mag=_lin_mag, roots=_lin_roots, ntheta=2),
     "cubmono": dict(f=_cm_f, fx=_cm_fx, fth=_cm_fth, mag=_cm_mag, roots=_cm_roots, ntheta=2),
     "cub3":    dict(f=_c3_f, fx=_c3_fx, fth=_c3_fth, mag=_c3_mag, roots=_c3_roots, ntheta=1),
@@ -124,7 +140,7 @@ FAMILIES = {
     "steep":   dict(f=_st_f, fx=_st_fx, fth=_st_fth, mag=_st_mag, roots=_st_roots, ntheta=2),
     "exp":     dict(f=_ex_f, fx=_ex_fx, fth=_ex_fth, mag=_ex_mag, roots=_ex_roots, ntheta=1),
 }
-FAMILY_ORDER = ["triple", "tanh", "steep", "cub3", "cubmono", "exp", "linear"]
+FAMILY_ORDER = ["flatoff", "triple", "tanh", "steep", "cub3", "cubmono", "exp", "linear"]
 
 
 def instances(fam, tier, seed):
@@ -147,6 +163,7 @@ def instances(fam, tier, seed):
         "tanh": [u(0.1, 30.0), u(-3.0, 3.0)],
         "steep": [sgn() * u(0.1, 3.0), u(1.05, 6.0)],
         "exp": [math.exp(u(-4.0, 4.0))],
+        "flatoff": [u(-1.0, 1.0), sgn() * 1.0e-10],
     }
     base = {
         "linear": [("e1", [2.0, 3.0]), ("g1", [0.37, -1.1]), ("gs", draws["linear"])],
@@ -156,6 +173,7 @@ def instances(fam, tier, seed):
         "tanh": [("e1", [1.0, 0.5]), ("e2", [20.0, -1.25]), ("gs", draws["tanh"])],
         "steep": [("e1", [1.0, 5.0]), ("g1", [0.3, 1.1]), ("gs", draws["steep"])],
         "exp": [("e1", [1.0]), ("g1", [50.0]), ("gs", draws["exp"])],
+        "flatoff": [("g1", [0.0, 1.0e-10]), ("g2", [0.5, -1.0e-12]), ("gs", draws["flatoff"])],
     }
     extra = {
         "linear": [("g2", [-5.0, 0.013]), ("e2", [-0.5, 0.25])],
@@ -165,6 +183,7 @@ def instances(fam, tier, seed):
         "tanh": [("e3", [0.05, 2.0]), ("e4", [300.0, 0.0])],
         "steep": [("e2", [1.0, 1.1]), ("g2", [-2.0, 3.0])],
         "exp": [("g2", [1.0e-3]), ("g3", [3.0e5])],
+        "flatoff": [("g3", [-2.0, 1.0e-9]), ("g4", [1.0, 1.0e-15])],
     }
     out = list(base[fam])
     if tier == "thorough":
@@ -188,7 +207,7 @@ def exact_roots(fam, th, label):
 BRACKET_KINDS = ["standard", "lo-root", "hi-root", "both-roots", "no-sign-change", "nosign-2roots", "wide", "narrow",
                  "wrong-slope-lo", "wrong-slope-hi"]
 BRACKET_KINDS_THOROUGH = BRACKET_KINDS + ["standard-b", "wide-b", "narrow-b"]
-X0_KINDS = ["mid", "lo", "hi", "below", "above", "root"]
+X0_KINDS = ["mid", "lo", "hi", "below", "above", "root", "stat"]
 X0_KINDS_THOROUGH = X0_KINDS + ["q1", "q3", "far-above"]
 
 
